@@ -629,7 +629,16 @@ def execute(cfg, light=False, seed=None):
     if cfg.get('prelude'):
         # a history of tasks: the space is built and optimised by the earlier tasks before observation starts
         pre_space = build(cfg, mon.raw)[0]
-        run_prelude(cfg, pre_space)
+        try:
+            run_prelude(cfg, pre_space)
+        except (Exception, SoftTimeout) as ex:  # noqa: BLE001
+            # an earlier task that does not complete is that task's own (single-task) C03 matter: no history to continue
+            mon.outcome = {'status': 'prelude-' + ('timeout' if isinstance(ex, SoftTimeout) else 'exception'), 'type': type(ex).__name__, 'msg': str(ex)[:200]}
+            mon.skip('history of tasks: an earlier task did not complete (%s)' % type(ex).__name__)
+            mon.draws = draws
+            mon.hist = None
+            mon.state1 = mon.state0
+            return mon
     with Patches(mon):
         draws.install()
         try:
@@ -706,6 +715,8 @@ def check_c03(mon):
         mon.skip('C03: ' + why)
         return
     n, nit = cfg['n_agents'], cfg['n_iterations']
+    if out['status'].startswith('prelude-'):
+        return
     if out['status'] == 'exception':
         site = phase_site(out['sites'])
         cls = failure_class(mon)
@@ -830,6 +841,9 @@ def check_c15(mon):
                 lo, hi = {'w': ('w_min', 'w_max'), 'PAR': ('PAR_min', 'PAR_max'), 'bw': ('bw_min', 'bw_max')}[k]
                 if not (num(hp[lo]) <= x <= num(hp[hi])):
                     cls = 'nan' if x != x else 'out-of-range'
+                    l_, h_ = num(hp[lo]), num(hp[hi])
+                    if x == x and l_ <= h_ and (0 < x - h_ <= 4 * math.ulp(h_) or 0 < l_ - x <= 4 * math.ulp(l_)):
+                        cls = 'rounding-outside-range'      # an end point of the range missed by a few ulps
                     extra = ':bw_min=0' if (name == 'IHS' and num(hp['bw_min']) == 0) else ''
                     mon.v('C15', '%s.%s:%s%s' % (name, k, cls, extra), '%s=%r outside [%s=%r, %s=%r] (%s)' % (k, v, lo, hp[lo], hi, hp[hi], when), v, [hp[lo], hp[hi]])
             else:
@@ -1062,8 +1076,10 @@ def run_task(cfg):
             check_c01_args(mon)
             viol = list(mon.viol)
     if cfg.get('prelude'):
+        # a key that names its cause site (`...@site`: NaN produced by the observed task's own arithmetic) identifies the same
+        # defect as in a single task; everything else is specific to the history and is keyed by it
         tag = 'after-%s:' % '+'.join(p['optimizer'] for p in cfg['prelude'])
-        viol = [dict(v, key=tag + v['key']) for v in viol if v['property'] in ('C01', 'C07', 'C12')]
+        viol = [dict(v, key=v['key'] if '@' in v['key'] else tag + v['key']) for v in viol if v['property'] in ('C01', 'C07', 'C12')]
     stats = {'status': mon.outcome['status'], 'n_evals': len(mon.evals), 'n_hooks': len(mon.hooks), 'n_dumps': len(mon.dumps),
              'n_uniform': getattr(mon, 'draws', None) and mon.draws.n_uniform, 'n_normal': getattr(mon, 'draws', None) and mon.draws.n_normal,
              'n_choice': getattr(mon, 'draws', None) and mon.draws.n_choice, 'clip_agent': mon.n_clip_agent, 'clip_space': mon.n_clip_space,
